@@ -266,14 +266,17 @@ PROPS = {
                       "and to sender / intermediary / receiver are enumerated; rapid draws longer histories (two errors from drawn senders, up to 6 hops through "
                       "drawn processes). At every process: wire family name = the original name, decoded Go type = the receiver's own name (opaque at v0, text "
                       "kept), Is recognises an equal local instance and rejects another message, the two errors are Is-equal in both directions (scenario 5). "
-                      "All registration orders must give identical bytes; registering a target twice must panic.",
+                      "All registration orders must give identical bytes; registering a target twice must panic. Third part: the rename the library declares itself "
+                      "(os.PathError of Go < 1.16 -> io/fs.PathError): in generated trees containing a path error, that layer is sent under the family name "
+                      "os/*os.PathError, a message as the old peer sends it (old name throughout) is decoded to *fs.PathError with the same shape and text, and Is "
+                      "recognises the layer in both directions.",
         "level_note": "Code versions are registry images inside one test binary (the Go types of all names are linked into it; a version 'knows' a name iff its "
                       "image has the decoder / migration).",
         "technique": "exhaustive configuration enumeration + property-based history generation (rapid) over registry images; invariants checked at every process of the history",
         "rule": "exhaustive: 11 senders x 11 second senders x 12 receivers, and 11 senders x 12 intermediaries x 12 receivers; histories: rapid draws two senders and "
                 "1-6 hop steps (hop A, hop B, hop both) through drawn versions. Non-trivial = history of at least 3 steps. Distinct = hash of the history.",
         "assumptions": ["a registry image faithfully stands for a code version"],
-        "parts": [plain("exhaustive", "TestExhaustive"), rapid("histories", "TestProp", 8000, 160000)],
+        "parts": [plain("exhaustive", "TestExhaustive"), rapid("histories", "TestProp", 8000, 160000), rapid("builtin-rename", "TestBuiltinRename", 2000, 40000)],
     },
     "C09": {
         "pkg": "c09",
@@ -352,14 +355,18 @@ PROPS = {
                       "every read-only operation of the property (all verbs through fmt and Formattable, redactable and redacted renderings, encode+marshal, every "
                       "accessor, safe details, report building, Is/IsAny against the sentinel pool, As for 19 targets, hint/detail collection), for 3 rounds; every "
                       "goroutine's result must equal the result of running alone on the twin error, and a final solo run on the shared error must as well. The "
-                      "race detector (halt_on_error) turns any unsynchronised conflicting access that occurs into a failure, independent of the timing of the run.",
+                      "race detector (halt_on_error) turns any unsynchronised conflicting access that occurs into a failure, independent of the timing of the run. "
+                      "Second part (history independence, sequential): a generated sequence of trees is handled by one process - the first tree is observed on a "
+                      "fresh build, then 1-8 other trees (independent ones and near-equal variants of the first) are observed, then a fresh build of the first "
+                      "again: both observations must be equal, i.e. no observer keeps state keyed more coarsely than the value it was computed from.",
         "level_note": "The harness does not own the scheduler: a defect that needs a particular interleaving of properly synchronised operations would be found only by "
                       "luck; the detector finds unsynchronised accesses that actually occur in the run, which covers lazy caches, memoisation and shared scratch buffers.",
-        "technique": "property-based testing (rapid) under the Go race detector: concurrent-vs-solo result equality on a fresh shared error, many goroutines and rounds",
-        "rule": "rapid-generated trees (boosted: barriers, tags, secondary errors, Mark, Join, safe details, stacks), local or decoded; 16 goroutines x 3 rounds per "
-                "tree. Non-trivial = at least 3 spec nodes. Distinct = hash of the case JSON.",
+        "technique": "property-based testing (rapid) under the Go race detector: concurrent-vs-solo result equality on a fresh shared error, many goroutines and rounds; "
+                     "generated operation histories (observe A, observe others, observe A again) with an equality invariant",
+        "rule": "rapid-generated trees (boosted: barriers, tags, secondary errors, Mark, Join, safe details, stacks, domains), local or decoded; 16 goroutines x 3 "
+                "rounds per tree. Non-trivial = at least 3 spec nodes; for the history part = at least 2 other errors handled in between. Distinct = hash of the case JSON.",
         "assumptions": ["Go race detector semantics (happens-before based, reports races that occur)"],
-        "parts": [rapid("concurrent-readers", "TestProp", 160, 3200)],
+        "parts": [rapid("concurrent-readers", "TestProp", 160, 3200), rapid("history-independence", "TestHistory", 640, 12800)],
         "timeout": {"quick": 900, "thorough": 7200},
     },
 }
